@@ -14,6 +14,8 @@ def main():
     ap.add_argument("--tier", default=os.environ.get("VERIF_TIER", "quick"), choices=["quick", "thorough"])
     a = ap.parse_args()
     pid = a.pid.upper()
+    if a.tier == "thorough":
+        os.environ.setdefault("VERIF_CROSS", "6")      # per process: cvc5 re-checks the first non-trivial z3 verdicts
     scratch = tempfile.mkdtemp(prefix="vcheck-%s-" % pid)
     os.environ["VCHECK_SCRATCH"] = scratch
     os.chdir(scratch)
